@@ -50,6 +50,13 @@ def hex16 (n : Nat) : String :=
 def contentsStr (bs : List Nat) : String :=
   if bs.length ≤ 48 then toHex bs else s!"fnv:{hex16 (fnv bs)}:{bs.length}"
 
+/-- UTF-8 encoding of a code point (what `fmt::Write::write_char` must append) -/
+def utf8 (c : Nat) : List Nat :=
+  if c < 0x80 then [c]
+  else if c < 0x800 then [0xC0 + c / 64, 0x80 + c % 64]
+  else if c < 0x10000 then [0xE0 + c / 4096, 0x80 + (c / 64) % 64, 0x80 + c % 64]
+  else [0xF0 + c / 262144, 0x80 + (c / 4096) % 64, 0x80 + (c / 64) % 64, 0x80 + c % 64]
+
 /-- parse the op text of the trace into a model op (`none`: unknown) -/
 def parseOp (ws : List String) : Option Op :=
   let n (s : String) := s.toNat?
@@ -61,6 +68,7 @@ def parseOp (ws : List String) : Option Op :=
   | ["collect", h] => (parseHex h).map .copyFromSlice          -- FromIterator for Bytes: exact-size Vec, then From<Vec>
   | ["owner", h] => (parseHex h).map fun bs => .fromOwner bs false
   | ["owner", h, "panic"] => (parseHex h).map fun bs => .fromOwner bs true
+  | ["ownerz"] => some (.fromOwner [122, 115, 116, 45, 111, 119, 110, 33] false)    -- a zero-sized owner answering b"zst-own!"
   | ["mcap", c] => (n c).map .mutWithCapacity
   | ["mfrom", h] => (parseHex h).map .mutFromSlice
   | ["mcollect", h] => (parseHex h).map .mutFromSlice          -- FromIterator for BytesMut
@@ -96,6 +104,8 @@ def parseOp (ws : List String) : Option Op :=
   | ["extendit", i, h] => do pure (.extend (← n i) (← parseHex h))     -- Extend<u8>: reserve(lower bound) + put_u8 each
   | ["extendref", i, h] => do pure (.extend (← n i) (← parseHex h))    -- Extend<&u8>
   | ["putslice", i, h] => do pure (.extend (← n i) (← parseHex h))     -- BufMut::put_slice
+  | ["wstr", i, h] => do pure (.extend (← n i) (← parseHex h))         -- fmt::Write::write_str (the bytes are valid UTF-8)
+  | ["wchar", i, c] => do pure (.extend (← n i) (utf8 (← n c)))         -- fmt::Write::write_char / `write!(b, "{}", ch)`
   | ["resize", i, k, b] => do pure (.resize (← n i) (← n k) (← n b))
   | ["putbytes", i, _, k] => do pure (.reserve (← n i) (← n k))       -- refined in judgeBlock (needs the current length)
   | ["unsplit", i, j] => do pure (.unsplit (← n i) (← n j))
@@ -259,6 +269,12 @@ def boundsOracle (obs : List Obs) : Option (String × String) :=
     | some (a, b) => some ("C04", s!"region of mutable handle {a} overlaps handle {b}")
     | none => none
 
+/-- C02 / C04: a handle's length never exceeds its capacity (`[ptr, ptr+len)` lies inside `[ptr, ptr+cap)`) -/
+def lenCapOracle (obs : List Obs) : Option (String × String) :=
+  match obs.find? fun o => match o.cap with | some c => o.len > c | none => false with
+  | some o => some ("C02+C04", s!"handle {o.id}: length {o.len} exceeds capacity {o.cap.getD 0}")
+  | none => none
+
 /-- C08: is_unique against the set of live handles that refer to the same storage.  "Refers" is
 taken from the handle structure (which control block a handle names; an empty zero-capacity
 BytesMut still holds its reference), "shares" for non-empty handles from the reported addresses. -/
@@ -412,7 +428,7 @@ def judgeBlock (s : JS) : IO JS := do
   match b.evs.find? (·.bad != 0) with
   | some e => emit s true s!"oracle-fail C02 op={opw.headD "?"} what=allocator_violation_kind_{e.bad}_(1_unknown_block,2_wrong_layout,3_red_zone,4_write_after_free)"
   | none =>
-  match boundsOracle b.obs with
+  match (boundsOracle b.obs).orElse fun _ => lenCapOracle b.obs with
   | some (p, msg) =>
     -- after a panicking call this is also "a panic leaves every handle intact and usable"
     emit s true s!"oracle-fail {if out == Outc.panic then p ++ "+C13" else p} op={opw.headD "?"} what={msg.replace " " "_"}"
